@@ -16,7 +16,7 @@
 (* Verdict per record (v):                                                  *)
 (*   agree            obs = TrueReport (the ideal report) and Correct        *)
 (*   agree_window     obs = the report of the window the code keeps, Correct *)
-(*   known_d9 / known_d13 / known_tok   obs is what the implementation-level *)
+(*   known_d9 / known_d13 / known_tok / known_yaml   obs is what the implementation-level *)
 (*                    model predicts, the property fails, and the scenario   *)
 (*                    lies in the structural class of that finding           *)
 (*   correct_not_impl Correct, differs from the implementation model inside  *)
@@ -68,7 +68,8 @@ JsonVerdict(rec) ==
           ELSE IF corr /\ o.name = rec.name /\ (d9 \/ d13 \/ (rec.tr = "pipe" /\ view.a > 0)) THEN [v |-> "correct_not_impl", info |-> info]
           ELSE [v |-> "mismatch", why |-> "report differs from the specification", info |-> info]
 
-\* YAML: the index comes from go-yaml (environment); the arithmetic from index to report is ours
+\* YAML: the index comes from go-yaml (environment) and counts CHARACTERS; yamlParseError.Error uses it as
+\* a byte offset (D16).  impl = the report for "byte offset = index"; ideal = for the byte of that character.
 YamlVerdict(rec) ==
   LET t == rec.text
       N == TLen(t)
@@ -76,14 +77,19 @@ YamlVerdict(rec) ==
   IN IF rec.env.err.k # "syntax" THEN [v |-> "env_disagree"]
      ELSE IF o.fmt = "none" THEN [v |-> "mismatch", why |-> "no report"]
      ELSE LET p == rec.env.err.p
-              r == ReportAt(t, 0, N, p + 1)
+              pb == ByteOfRune(t, p)
+              impl == ReportAt(t, 0, N, p + 1)
+              ideal == ReportAt(t, 0, N, pb + 1)
               byc == Has(rec, "err") /\ rec.err.k = "syntax"       \* offending byte known by construction
-              e == IF p >= N THEN [k |-> "eof"] ELSE [k |-> "syntax", p |-> p]
-          IN IF Width(o.ex) < 0 \/ Width(r.ex) < 0 THEN [v |-> "oom"]
-             ELSE IF byc /\ rec.err.p # p THEN [v |-> "env_disagree"]
-             ELSE IF SameWhole(o, r, TRUE) /\ o.name = rec.name /\ Correct(t, e, ObsRec(o))
-                  THEN [v |-> "agree", line |-> r.line, col |-> r.col, exlen |-> Len(r.ex)]
-                  ELSE [v |-> "mismatch", why |-> "yaml report", info |-> [impl |-> Pub(r)]]
+              e == IF pb >= N THEN [k |-> "eof"] ELSE [k |-> "syntax", p |-> pb]
+              corr == Correct(t, e, ObsRec(o))
+          IN IF Width(o.ex) < 0 \/ Width(impl.ex) < 0 \/ Width(ideal.ex) < 0 THEN [v |-> "oom"]
+             ELSE IF byc /\ rec.err.p # pb THEN [v |-> "env_disagree"]
+             ELSE IF SameWhole(o, ideal, TRUE) /\ o.name = rec.name /\ corr
+                  THEN [v |-> "agree", line |-> ideal.line, col |-> ideal.col, exlen |-> Len(ideal.ex)]
+             ELSE IF SameWhole(o, impl, TRUE) /\ o.name = rec.name /\ pb # p
+                  THEN [v |-> "known_yaml", info |-> [index |-> p, byte |-> pb, impl |-> Pub(impl), true |-> Pub(ideal), correct |-> corr]]
+             ELSE [v |-> "mismatch", why |-> "yaml report", info |-> [index |-> p, byte |-> pb, impl |-> Pub(impl), true |-> Pub(ideal)]]
 
 \* queries: library part (Offset/Token identify the offending bytes) and command part
 QueryVerdict(rec) ==
